@@ -112,3 +112,21 @@ PROPS["C11"] = {
          "thorough": {"shards": 8, "cap": 900}},
     ],
 }
+
+PROPS["C19"] = {
+    "level": "exploration",
+    "rule": ("scaling: (family, depth, width, operation) with family in ladder(d,w) [w^d paths], dense DAG(n) [2^(n-2) paths], chain; operation in {select-for-build, descendants, ancestors} decided by deterministic work counters "
+             "(Select() calls <= 4(V+E); traversal result length <= V) and {BuildGraph with ordered overlapping writers, critical path, Walk with failing root, Walk all-success} decided by process CPU time "
+             "(> 2 s and > 50x the chain with the same node count; a correct run is < 10 ms). Non-trivial = non-chain family with >= 4096 dependency paths; distinct by full case."),
+    "assumptions": [
+        "nothing is proved about complexity; the check separates path enumeration from node/edge traversal on families where they differ by >= 3 orders of magnitude",
+        "CPU time (getrusage) rather than wall-clock is used for the timed operations; path counts are capped at 2^24 so that an exponential implementation shows as seconds of CPU, not as memory exhaustion",
+    ],
+    "nt_floor": 0.3,
+    "parallel": 4,
+    "parts": [
+        {"name": "scaling", "pkg": "c19", "test": "TestScaling",
+         "quick": {"shards": 4, "checks": 400, "cap": 900},
+         "thorough": {"shards": 4, "checks": 6000, "cap": 7200}},
+    ],
+}
